@@ -4,6 +4,10 @@
 //!   ser <indent> <term>*      3k terms in prefix notation (`T::render`): the triples, in order
 //!   split <hexiri>            namespace / local-name split as the real formatter performs it
 //!                             (observed on the output of a one-triple document)
+//!   sink <indent> <lim> <term>*   the same serialisation into a writer that accepts `lim` bytes and
+//!                             then fails (`a<N>` = N bytes, `r<K>` = K bytes less than the document
+//!                             needs): the error must be reported, never swallowed
+//!   src <indent> <k> <term>*  the triple source fails after `k` triples: must be a `SourceError`
 //!
 //! `ser` runs the REAL `RdfXmlSerializer` with `RdfXmlConfig::with_indentation(n)`, prints the
 //! output bytes (byte-exact differential with the Lean model), parses them back with the REAL
@@ -12,14 +16,20 @@
 //!   FAIL.roundtrip        output does not parse, or parses to a graph that is not isomorphic
 //!                         (own exact test, blank labels may be renamed, language tags compared
 //!                         case-insensitively) to the input restricted to representable triples
-//!   FAIL.indent_changes_result  the parse differs between indentation 0..8
+//!   FAIL.indent_changes_result  the parse differs between indentation 0..8 or the default
+//!                         configuration (`RdfXmlSerializer::new`, `new_stringifier`,
+//!                         `RdfXmlConfig::default`, `serialize_graph`)
+//!   FAIL.sink_error_swallowed / FAIL.sink_spurious_error / FAIL.sink_bytes   (`sink`)
+//!   FAIL.source_error_swallowed / FAIL.source_spurious_error                (`src`)
 //! Inputs with characters outside XML `Char` are out of the property's scope: outcome recorded
 //! (`oos=1`), never flagged.
 use sophia_api::prelude::*;
+use sophia_api::source::StreamError;
 use sophia_api::term::SimpleTerm;
 use sophia_xml::serializer::{RdfXmlConfig, RdfXmlSerializer};
 use std::collections::{BTreeMap, BTreeSet};
-use vhcore::tgen::{to_simple, view, RDF, XSD};
+use std::io;
+use vhcore::tgen::{to_simple, view, NEAR_MISS_DATATYPES, NEAR_MISS_VOCAB, RDF, XSD};
 use vhcore::util::*;
 use vhcore::GenCtx;
 
@@ -53,8 +63,9 @@ fn is_ncname(s: &str) -> bool {
 }
 
 // ------------------------------------------------------------------------------------------
-// own well-formedness checker (namespace-well-formed XML 1.0 without DTD, comments, PI, CDATA —
-// none of which the serialiser emits; meeting one is reported as not well-formed)
+// own well-formedness checker (namespace-well-formed XML 1.0; comments, processing instructions,
+// CDATA sections and a document type declaration are skipped, entity declarations are not
+// interpreted: a reference to a declared general entity would be reported as `bad-entity`)
 // ------------------------------------------------------------------------------------------
 
 struct Cur<'a> {
@@ -155,6 +166,7 @@ fn well_formed(doc: &str) -> Result<(), String> {
     let mut stack: Vec<(String, Vec<String>)> = vec![];
     let mut bound: Vec<String> = vec!["xml".into()];
     let mut seen_root = false;
+    let mut seen_doctype = false;
     loop {
         match c.peek() {
             None => break,
@@ -174,6 +186,92 @@ fn well_formed(doc: &str) -> Result<(), String> {
                             }
                         }
                         _ => return Err("unbalanced".into()),
+                    }
+                    continue;
+                }
+                // comments, processing instructions, CDATA sections, a document type declaration:
+                // the serialiser emits none of them today, but a document that contains them is
+                // still well-formed
+                if c.eat("!--") {
+                    loop {
+                        if c.eat("-->") {
+                            break;
+                        }
+                        if c.eat("--") || c.peek().is_none() {
+                            return Err("bad-comment".into());
+                        }
+                        c.i += 1;
+                    }
+                    continue;
+                }
+                if c.eat("?") {
+                    let st = c.i;
+                    while matches!(c.peek(), Some(ch) if name_char(ch) || ch == ':') {
+                        c.i += 1;
+                    }
+                    let target: String = c.s[st..c.i].iter().collect();
+                    if !is_ncname(&target) || target.eq_ignore_ascii_case("xml") {
+                        return Err("bad-pi".into());
+                    }
+                    loop {
+                        if c.eat("?>") {
+                            break;
+                        }
+                        if c.peek().is_none() {
+                            return Err("bad-pi".into());
+                        }
+                        c.i += 1;
+                    }
+                    continue;
+                }
+                if c.eat("![CDATA[") {
+                    if stack.is_empty() {
+                        return Err("text-outside-root".into());
+                    }
+                    loop {
+                        if c.eat("]]>") {
+                            break;
+                        }
+                        if c.peek().is_none() {
+                            return Err("bad-cdata".into());
+                        }
+                        c.i += 1;
+                    }
+                    continue;
+                }
+                if c.eat("!DOCTYPE") {
+                    if seen_root || seen_doctype {
+                        return Err("misplaced-doctype".into());
+                    }
+                    seen_doctype = true;
+                    let mut depth = 0usize;
+                    loop {
+                        match c.peek() {
+                            None => return Err("bad-doctype".into()),
+                            Some(q @ ('"' | '\'')) => {
+                                c.i += 1;
+                                while c.peek().is_some_and(|x| x != q) {
+                                    c.i += 1;
+                                }
+                                if c.peek().is_none() {
+                                    return Err("bad-doctype".into());
+                                }
+                                c.i += 1;
+                            }
+                            Some('[') => {
+                                depth += 1;
+                                c.i += 1;
+                            }
+                            Some(']') => {
+                                depth = depth.saturating_sub(1);
+                                c.i += 1;
+                            }
+                            Some('>') if depth == 0 => {
+                                c.i += 1;
+                                break;
+                            }
+                            Some(_) => c.i += 1,
+                        }
                     }
                     continue;
                 }
@@ -399,14 +497,189 @@ fn render_graph(g: &[Tr]) -> String {
 // the real code
 // ------------------------------------------------------------------------------------------
 
+fn simple_graph(g: &[Tr]) -> Vec<[SimpleTerm<'static>; 3]> {
+    g.iter().map(|t| [to_simple(&t[0]), to_simple(&t[1]), to_simple(&t[2])]).collect()
+}
+
 fn serialize(indent: usize, g: &[Tr]) -> Result<String, String> {
-    let triples: Vec<[SimpleTerm<'static>; 3]> = g.iter().map(|t| [to_simple(&t[0]), to_simple(&t[1]), to_simple(&t[2])]).collect();
+    let triples = simple_graph(g);
     let config = RdfXmlConfig::new().with_indentation(indent);
     let mut ser = RdfXmlSerializer::new_stringifier_with_config(config);
     match ser.serialize_triples(triples.triples()) {
         Ok(s) => Ok(s.to_string()),
         Err(e) => Err(e.to_string()),
     }
+}
+
+/// the entry points that never see `with_indentation`: `new_stringifier` + `serialize_graph`,
+/// `RdfXmlSerializer::new` on a plain `Vec<u8>`, `RdfXmlConfig::default()` / `::new()` passed
+/// explicitly, and `new_with_config` on a `&mut Vec<u8>` (a writer type other than `Vec<u8>`)
+fn serialize_default(g: &[Tr]) -> Vec<Result<String, String>> {
+    let triples = simple_graph(g);
+    let mut out = vec![];
+    let mut ser = RdfXmlSerializer::new_stringifier();
+    out.push(match ser.serialize_graph(&triples) {
+        Ok(s) => Ok(s.to_string()),
+        Err(e) => Err(e.to_string()),
+    });
+    let mut ser = RdfXmlSerializer::new(Vec::<u8>::new());
+    out.push(match ser.serialize_triples(triples.triples()) {
+        Ok(s) => Ok(String::from_utf8_lossy(s.as_utf8()).to_string()),
+        Err(e) => Err(e.to_string()),
+    });
+    for config in [RdfXmlConfig::default(), RdfXmlConfig::new()] {
+        let mut buf: Vec<u8> = vec![];
+        let mut ser = RdfXmlSerializer::new_with_config(&mut buf, config);
+        let r = ser.serialize_triples(triples.triples()).map(|_| ()).map_err(|e| e.to_string());
+        out.push(r.map(|_| String::from_utf8_lossy(&buf).to_string()));
+    }
+    out
+}
+
+/// a writer that accepts `limit` bytes (partial writes included) and fails afterwards
+struct FailAfter {
+    buf: Vec<u8>,
+    limit: usize,
+    failed: usize,
+}
+
+impl io::Write for FailAfter {
+    fn write(&mut self, b: &[u8]) -> io::Result<usize> {
+        let room = self.limit - self.buf.len();
+        if room == 0 && !b.is_empty() {
+            self.failed += 1;
+            return Err(io::Error::other("disk full"));
+        }
+        let n = room.min(b.len());
+        self.buf.extend_from_slice(&b[..n]);
+        Ok(n)
+    }
+    fn flush(&mut self) -> io::Result<()> {
+        Ok(())
+    }
+}
+
+#[derive(Debug)]
+struct SourceBroke;
+impl std::fmt::Display for SourceBroke {
+    fn fmt(&self, f: &mut std::fmt::Formatter<'_>) -> std::fmt::Result {
+        write!(f, "source broke")
+    }
+}
+impl std::error::Error for SourceBroke {}
+
+fn parse_graph(f: &[&str]) -> Option<Vec<Tr>> {
+    let mut toks = f.iter().copied();
+    let mut g: Vec<Tr> = vec![];
+    loop {
+        let mut pk = toks.clone();
+        if pk.next().is_none() {
+            break;
+        }
+        let (Some(s), Some(p), Some(o)) = (T::parse(&mut toks), T::parse(&mut toks), T::parse(&mut toks)) else {
+            return None;
+        };
+        g.push([s, p, o]);
+    }
+    Some(g)
+}
+
+/// `convert_triple` hands the triple to the formatter, which refuses it (quoted triple inside)
+fn formatter_refuses(t: &Tr) -> bool {
+    (matches!(t[0], T::Iri(_) | T::Bnode(_)) || strict_star(&t[0]))
+        && matches!(t[1], T::Iri(_))
+        && (matches!(t[2], T::Iri(_) | T::Bnode(_) | T::Lit(..) | T::Lang(..)) || strict_star(&t[2]))
+        && !representable(t)
+}
+
+/// `sink <indent> <a<N>|r<K>> <term>*`
+fn exec_sink(f: &[&str]) -> String {
+    let (Some(indent), Some(lim)) = (f.first().and_then(|s| s.parse::<usize>().ok()), f.get(1)) else { return "bad-op".into() };
+    let Some(g) = parse_graph(&f[2..]) else { return "bad-op".into() };
+    let full = serialize(indent, &g);
+    let need = full.as_ref().map(|d| d.len()).unwrap_or(0);
+    let limit = match (lim.strip_prefix('a'), lim.strip_prefix('r')) {
+        (Some(n), _) => n.parse::<usize>().ok(),
+        (_, Some(k)) => k.parse::<usize>().ok().map(|k| need.saturating_sub(k)),
+        _ => None,
+    };
+    let Some(limit) = limit else { return "bad-op".into() };
+    let triples = simple_graph(&g);
+    let mut w = FailAfter { buf: vec![], limit, failed: 0 };
+    let res = {
+        let config = RdfXmlConfig::new().with_indentation(indent);
+        let mut ser = RdfXmlSerializer::new_with_config(&mut w, config);
+        match ser.serialize_triples(triples.triples()) {
+            Ok(_) => "ok",
+            Err(StreamError::SinkError(_)) => "sinkerr",
+            Err(StreamError::SourceError(_)) => "srcerr",
+        }
+    };
+    let mut out = format!("res={} written={} refused={}", res, w.buf.len(), w.failed.min(1));
+    match &full {
+        Ok(doc) => {
+            let fits = limit >= doc.len();
+            if !fits && res == "ok" {
+                out += &format!(" FAIL.sink_error_swallowed={}of{}", limit, doc.len());
+            }
+            if fits && res != "ok" {
+                out += &format!(" FAIL.sink_spurious_error={}", res);
+            }
+            if !fits && res == "srcerr" {
+                out += " FAIL.sink_error_misreported=srcerr";
+            }
+            // whatever was accepted is the beginning of the document (and all of it on success)
+            let want = &doc.as_bytes()[..limit.min(doc.len())];
+            if w.buf != want {
+                out += &format!(" FAIL.sink_bytes={}", hex_bytes(&w.buf));
+            }
+        }
+        Err(_) => {
+            if res == "ok" {
+                out += " FAIL.sink_error_swallowed=formatter";
+            }
+        }
+    }
+    out
+}
+
+/// `src <indent> <k> <term>*`: the source yields the first k triples, then an error
+fn exec_src(f: &[&str]) -> String {
+    let (Some(indent), Some(k)) = (f.first().and_then(|s| s.parse::<usize>().ok()), f.get(1).and_then(|s| s.parse::<usize>().ok())) else {
+        return "bad-op".into();
+    };
+    let Some(g) = parse_graph(&f[2..]) else { return "bad-op".into() };
+    let triples = simple_graph(&g);
+    let breaks = k < triples.len();
+    let items: Vec<Result<[SimpleTerm<'static>; 3], SourceBroke>> =
+        triples.into_iter().take(k).map(Ok).chain(if breaks { vec![Err(SourceBroke)] } else { vec![] }).collect();
+    let config = RdfXmlConfig::new().with_indentation(indent);
+    let mut ser = RdfXmlSerializer::new_stringifier_with_config(config);
+    let res = match ser.serialize_triples(items.into_iter()) {
+        Ok(_) => "ok",
+        Err(StreamError::SinkError(_)) => "sinkerr",
+        Err(StreamError::SourceError(_)) => "srcerr",
+    };
+    let mut out = format!("res={}", res);
+    let refused = g.iter().take(k).any(formatter_refuses);
+    let want = if refused { "sinkerr" } else if breaks { "srcerr" } else { "ok" };
+    if res != want {
+        let what = match (want, res) {
+            ("srcerr", "ok") => "source_error_swallowed",
+            ("srcerr", _) => "source_error_misreported",
+            ("sinkerr", _) => "formatter_error_lost",
+            _ => "source_spurious_error",
+        };
+        out += &format!(" FAIL.{}={}", what, res);
+    }
+    if res == "ok" {
+        // nothing failed: the document is the ordinary one
+        let doc = ser.as_str().to_string();
+        if Ok(&doc) != serialize(indent, &g).as_ref() {
+            out += " FAIL.source_changes_output=1";
+        }
+    }
+    out
 }
 
 fn parse(doc: &str) -> Result<Vec<Tr>, String> {
@@ -444,18 +717,7 @@ fn qnameable(p: &str) -> bool {
 
 fn exec_ser(f: &[&str]) -> String {
     let Some(indent) = f.first().and_then(|s| s.parse::<usize>().ok()) else { return "bad-op".into() };
-    let mut toks = f[1..].iter().copied();
-    let mut g: Vec<Tr> = vec![];
-    loop {
-        let mut pk = toks.clone();
-        if pk.next().is_none() {
-            break;
-        }
-        let (Some(s), Some(p), Some(o)) = (T::parse(&mut toks), T::parse(&mut toks), T::parse(&mut toks)) else {
-            return "bad-op".into();
-        };
-        g.push([s, p, o]);
-    }
+    let Some(g) = parse_graph(&f[1..]) else { return "bad-op".into() };
     let mut strs = vec![];
     for t in &g {
         for x in t {
@@ -464,12 +726,7 @@ fn exec_ser(f: &[&str]) -> String {
     }
     let in_scope = strs.iter().all(|s| s.chars().all(xml_char));
     let expected: Vec<Tr> = g.iter().filter(|t| representable(t)).cloned().collect();
-    let has_star = g.iter().any(|t| {
-        (matches!(t[0], T::Iri(_) | T::Bnode(_)) || strict_star(&t[0]))
-            && matches!(t[1], T::Iri(_))
-            && (matches!(t[2], T::Iri(_) | T::Bnode(_) | T::Lit(..) | T::Lang(..)) || strict_star(&t[2]))
-            && !representable(t)
-    });
+    let has_star = g.iter().any(formatter_refuses);
     let all_qname = expected.iter().all(|t| matches!(&t[1], T::Iri(p) if qnameable(p)));
 
     let res = serialize(indent, &g);
@@ -514,8 +771,25 @@ fn exec_ser(f: &[&str]) -> String {
     }
     // indentation must not change the parsed result
     let mut results: BTreeSet<String> = BTreeSet::new();
+    let mut doc0: Result<String, String> = Err(String::new());
+    let mut docs: Vec<Result<String, String>> = vec![];
     for n in 0..=8usize {
-        let r = match serialize(n, &g) {
+        let d = serialize(n, &g);
+        if n == 0 {
+            doc0 = d.clone();
+        }
+        docs.push(d);
+    }
+    // ... nor may the configuration-less entry points (default = indentation 0)
+    let dflt = serialize_default(&g);
+    out += &match dflt.iter().find(|d| **d != doc0) {
+        None => " dflt=eq0".to_string(),
+        Some(Ok(d)) => format!(" dflt={}", hex(d)),
+        Some(Err(_)) => " dflt=err".to_string(),
+    };
+    docs.extend(dflt);
+    for d in docs {
+        let r = match d {
             Err(_) => "err".to_string(),
             Ok(doc) => match catch(std::panic::AssertUnwindSafe(|| parse(&doc))) {
                 Ok(Ok(pg)) => render_graph(&pg),
@@ -525,6 +799,10 @@ fn exec_ser(f: &[&str]) -> String {
         };
         results.insert(r);
     }
+    // the configuration is what was asked for
+    let config = RdfXmlConfig::new().with_indentation(indent);
+    let ser = RdfXmlSerializer::new_stringifier_with_config(config.clone());
+    out += &format!(" cfg={},{},{}", config.indentation(), ser.config().indentation(), RdfXmlSerializer::new_stringifier().config().indentation());
     out += &format!(" indents={}", results.len());
     if results.len() != 1 {
         fails.push(format!("FAIL.indent_changes_result={}", results.len()));
@@ -564,6 +842,8 @@ pub fn exec(line: &str) -> String {
     match f.as_slice() {
         ["ser", rest @ ..] => exec_ser(rest),
         ["split", h] => exec_split(h),
+        ["sink", rest @ ..] => exec_sink(rest),
+        ["src", rest @ ..] => exec_src(rest),
         _ => "bad-op".into(),
     }
 }
@@ -581,6 +861,48 @@ const WS_ATOMS: &[&str] = &[" ", "  ", "\t", "\n", "\r", "\r\n", "\n  ", " \t\n"
 const OOS_ATOMS: &[&str] = &["\u{0}", "\u{1}", "\u{8}", "\u{B}", "\u{C}", "\u{1F}", "\u{FFFE}", "\u{FFFF}"];
 const TAGS: &[&str] = &["en", "EN", "en-GB", "en-gb", "fr", "de-CH-1996", "zh-Hant", "sl-rozaj-biske"];
 const SUBJ_IRIS: &[&str] = &["http://ex.org/a", "http://ex.org/b", "http://ex.org/a&b='c'", "x:s", "http://ex.org/é", "urn:uuid:1", "http://ex.org/\u{10000}"];
+/// odd but valid absolute IRIs (RFC 3987): IP literals, userinfo, port, empty path, query with a
+/// private-use character, fragment, sub-delims, percent escapes, case variants of the RDF / XSD
+/// namespaces, IRIs that end where a namespace would
+const ODD_IRIS: &[&str] = &[
+    "http://[::1]/x",
+    "http://[2001:db8::7]:8080/p?q#f",
+    "http://user:pw@ex.org:8080/p;v=1?q=a&b=c#frag",
+    "http://ex.org",
+    "http://ex.org?q",
+    "http://ex.org/?q=\u{E000}",
+    "http://ex.org/a(b)*+,;=!$'",
+    "http://ex.org/%C3%A9%2F",
+    "mailto:a@b.c",
+    "file:///a/b.c",
+    "tag:ex.org,2020:y",
+    "a:",
+    "a+b-c.d:e",
+    "HTTP://EX.ORG/A",
+    "http://www.w3.org/1999/02/22-rdf-syntax-ns#type",
+    "http://www.w3.org/1999/02/22-rdf-syntax-ns#nil",
+    "http://www.w3.org/1999/02/22-rdf-syntax-ns#RDF",
+    "http://www.w3.org/2001/XMLSchema#string",
+    "http://www.w3.org/XML/1998/namespace",
+    "http://www.w3.org/2000/xmlns/",
+    "http://ex.org/\u{FFEF}\u{1FFFD}",
+];
+/// datatypes that resemble xsd:string / rdf:langString without being equal (beside the shared pool)
+const NEAR_STRING_DATATYPES: &[&str] = &[
+    "https://www.w3.org/2001/XMLSchema#string",
+    "HTTP://www.w3.org/2001/XMLSchema#string",
+    "http://www.w3.org/2001/xmlschema#string",
+    "http://www.w3.org/2001/XMLSchema#string?",
+    "http://www.w3.org/2001/XMLSchema#string/",
+    "http://www.w3.org/2001/XMLSchema/string",
+    "http://www.w3.org/2001/XMLSchema#normalizedString",
+    "http://www.w3.org/2001/XMLSchema#%73tring",
+    "http://www.w3.org/1999/02/22-rdf-syntax-ns#langString",
+    "http://www.w3.org/1999/02/22-rdf-syntax-ns#PlainLiteral",
+    "x:string",
+];
+/// local names that resemble RDF/XML's syntax names without being one (must round-trip)
+const NEAR_RDF_NAMES: &[&str] = &["lix", "Li", "l", "_0", "_01", "_10", "description", "Descriptio", "aboutX", "About", "id", "rdf", "Resource", "nodeId", "Datatype", "parsetype", "bagId", "aboutEachX", "ParseType"];
 const BNODES: &[&str] = &["b0", "b1", "x.y", "a-b", "é", "_u", "b\u{B7}1", "rio1", "riog00000001", "0", "1a"];
 /// labels that are NCNames (the last two of BNODES are not)
 const GOOD_BNODES: usize = 9;
@@ -595,6 +917,12 @@ fn datatypes() -> Vec<String> {
         "http://ex.org/dt?a=1&b='2'".into(),
         "x:d".into(),
     ]
+}
+
+/// IRIs that merely look like xsd:string (a loosened comparison in `convert_triple` would drop
+/// their `rdf:datatype`)
+fn near_miss_datatypes() -> Vec<String> {
+    NEAR_MISS_DATATYPES.iter().chain(NEAR_STRING_DATATYPES).map(|s| s.to_string()).collect()
 }
 
 /// predicates with every namespace-split shape
@@ -630,6 +958,19 @@ fn predicates() -> Vec<(String, &'static str)> {
     for l in ["type", "value", "_1", "li", "Description", "about", "ID", "RDF", "resource", "nodeID", "datatype", "parseType", "bagID", "aboutEach", "aboutEachPrefix", "Seq", "first"] {
         v.push((format!("{}{}", RDF, l), "rdf-ns"));
     }
+    for l in NEAR_RDF_NAMES {
+        v.push((format!("{}{}", RDF, l), "rdf-near"));
+    }
+    for p in NEAR_MISS_VOCAB {
+        // (the bare namespace has no NCName suffix: the `prop:` finding)
+        v.push((p.to_string(), if p.ends_with('#') { "ends-hash" } else { "rdf-near" }));
+    }
+    for p in ["http://ex.org/22-rdf-syntax-ns#li", "https://www.w3.org/1999/02/22-rdf-syntax-ns#about", "http://www.w3.org/1999/02/22-rdf-syntax-ns/li"] {
+        v.push((p.to_string(), "rdf-near"));
+    }
+    for p in ["http://[::1]/p", "http://user@ex.org:80/a?b=c&d#p", "http://ex.org/?p", "mailto:a@b.p", "http://ex.org/a(b)p"] {
+        v.push((p.to_string(), "odd-iri"));
+    }
     v
 }
 
@@ -656,6 +997,23 @@ fn gen_text(ctx: &mut GenCtx) -> String {
         ctx.stats.bump("text.out_of_scope_char");
         s.push_str(pk(ctx, TEXT_ATOMS));
         s.push_str(pk(ctx, OOS_ATOMS));
+    } else if k < 36 {
+        // long text: crosses any internal buffer / chunk boundary of the writer
+        ctx.stats.bump("text.long");
+        for _ in 0..ctx.rng.range(200, 3000) {
+            s.push_str(pk(ctx, TEXT_ATOMS));
+        }
+    } else if k < 42 {
+        // runs of one atom (CR CR, && ...), and an atom at the very start / very end
+        ctx.stats.bump("text.atom_run");
+        let a = pk(ctx, TEXT_ATOMS);
+        for _ in 0..ctx.rng.range(2, 4) {
+            s.push_str(a);
+        }
+        if ctx.rng.chance(1, 2) {
+            s.push_str(pk(ctx, TEXT_ATOMS));
+            s.push_str(a);
+        }
     } else {
         ctx.stats.bump("text.mixed");
         for _ in 0..ctx.rng.range(1, 5) {
@@ -679,10 +1037,33 @@ fn gen_literal(ctx: &mut GenCtx, dts: &[String]) -> T {
     if ctx.rng.chance(1, 3) {
         ctx.stats.bump("object.lang");
         T::Lang(text, pk(ctx, TAGS).to_string())
+    } else if ctx.rng.chance(1, 4) {
+        let near = near_miss_datatypes();
+        let dt = ctx.rng.pick(&near).clone();
+        ctx.stats.bump("object.near_miss_datatype");
+        T::Lit(text, dt)
     } else {
         let dt = ctx.rng.pick(dts).clone();
-        ctx.stats.bump(if dt.ends_with("XMLLiteral") { "object.xmlliteral" } else if dt.ends_with("#string") { "object.simple" } else { "object.typed" });
+        ctx.stats.bump(if dt.ends_with("XMLLiteral") {
+            "object.xmlliteral"
+        } else if dt == format!("{}string", XSD) {
+            "object.simple"
+        } else {
+            "object.typed"
+        });
         T::Lit(text, dt)
+    }
+}
+
+fn gen_iri(ctx: &mut GenCtx) -> T {
+    if ctx.rng.chance(1, 4) {
+        ctx.stats.bump("iri.odd");
+        T::Iri(pk(ctx, ODD_IRIS).to_string())
+    } else if ctx.rng.chance(1, 10) {
+        ctx.stats.bump("iri.near_miss_vocab");
+        T::Iri(pk(ctx, NEAR_MISS_VOCAB).to_string())
+    } else {
+        T::Iri(pk(ctx, SUBJ_IRIS).to_string())
     }
 }
 
@@ -701,7 +1082,7 @@ fn gen_subject(ctx: &mut GenCtx) -> T {
         gen_bnode(ctx)
     } else {
         ctx.stats.bump("subject.iri");
-        T::Iri(pk(ctx, SUBJ_IRIS).to_string())
+        gen_iri(ctx)
     }
 }
 
@@ -709,7 +1090,7 @@ fn gen_object(ctx: &mut GenCtx, dts: &[String]) -> T {
     match ctx.rng.below(10) {
         0 | 1 => {
             ctx.stats.bump("object.iri");
-            T::Iri(pk(ctx, SUBJ_IRIS).to_string())
+            gen_iri(ctx)
         }
         2 | 3 => {
             ctx.stats.bump("object.bnode");
@@ -727,7 +1108,46 @@ fn gen_strict(ctx: &mut GenCtx, preds: &[(String, &'static str)], dts: &[String]
 
 fn gen_nonrepresentable(ctx: &mut GenCtx, preds: &[(String, &'static str)], dts: &[String]) -> Tr {
     let mut t = gen_strict(ctx, preds, dts);
-    match ctx.rng.below(8) {
+    match ctx.rng.below(11) {
+        8 => {
+            // two quoted constituents: `convert_triple` pushes twice on its stack
+            ctx.stats.bump("nonrep.quoted_both");
+            let q1 = gen_strict(ctx, preds, dts);
+            let q2 = gen_strict(ctx, preds, dts);
+            t[0] = T::Triple(Box::new(q1));
+            t[2] = T::Triple(Box::new(q2));
+        }
+        9 => {
+            // nesting depth 2 (and 3), in subject and/or object position
+            ctx.stats.bump("nonrep.quoted_depth2");
+            let mut q = gen_strict(ctx, preds, dts);
+            for _ in 0..ctx.rng.range(1, 2) {
+                let mut outer = gen_strict(ctx, preds, dts);
+                let pos = if ctx.rng.chance(1, 2) { 0 } else { 2 };
+                outer[pos] = T::Triple(Box::new(q));
+                q = outer;
+            }
+            if ctx.rng.chance(1, 2) {
+                t[0] = T::Triple(Box::new(q.clone()));
+            }
+            if ctx.rng.chance(1, 2) || !matches!(t[0], T::Triple(_)) {
+                t[2] = T::Triple(Box::new(q));
+            }
+        }
+        10 => {
+            // deep quoted triple with a non-convertible leaf: skipped, not an error
+            ctx.stats.bump("nonrep.quoted_depth2_bad_leaf");
+            let mut q = gen_strict(ctx, preds, dts);
+            q[ctx.rng.below(3)] = if ctx.rng.chance(1, 2) { T::Var("w".into()) } else { T::Lit("s".into(), format!("{}string", XSD)) };
+            if matches!(q[2], T::Lit(..)) && ctx.rng.chance(1, 2) {
+                q[0] = T::Lit("s".into(), format!("{}string", XSD));
+            }
+            let mut outer = gen_strict(ctx, preds, dts);
+            outer[if ctx.rng.chance(1, 2) { 0 } else { 2 }] = T::Triple(Box::new(q));
+            let q2 = gen_strict(ctx, preds, dts);
+            t[0] = T::Triple(Box::new(q2));
+            t[2] = T::Triple(Box::new(outer));
+        }
         0 => {
             ctx.stats.bump("nonrep.literal_subject");
             t[0] = gen_literal(ctx, dts);
@@ -774,8 +1194,8 @@ fn gen_nonrepresentable(ctx: &mut GenCtx, preds: &[(String, &'static str)], dts:
     t
 }
 
-fn emit_ser(ctx: &mut GenCtx, indent: usize, g: &[Tr]) {
-    let mut line = format!("ser {}", indent);
+fn emit_op(ctx: &mut GenCtx, head: &str, g: &[Tr]) {
+    let mut line = head.to_string();
     for t in g {
         for x in t {
             line.push(' ');
@@ -783,6 +1203,56 @@ fn emit_ser(ctx: &mut GenCtx, indent: usize, g: &[Tr]) {
         }
     }
     ctx.emit(&line);
+}
+
+fn emit_ser(ctx: &mut GenCtx, indent: usize, g: &[Tr]) {
+    emit_op(ctx, &format!("ser {}", indent), g);
+}
+
+/// a failing writer: the byte budget relative to the start (`a`) or to the end (`r`) of the document
+fn emit_sink(ctx: &mut GenCtx, indent: usize, g: &[Tr]) {
+    let lim = match ctx.rng.below(10) {
+        0 => {
+            ctx.stats.bump("sink.limit.zero");
+            "a0".to_string()
+        }
+        1 => {
+            ctx.stats.bump("sink.limit.in_declaration");
+            format!("a{}", ctx.rng.range(1, 38))
+        }
+        2 | 3 => {
+            ctx.stats.bump("sink.limit.in_body");
+            format!("a{}", ctx.rng.range(39, 400))
+        }
+        4 => {
+            ctx.stats.bump("sink.limit.exact");
+            "r0".to_string()
+        }
+        5 | 6 => {
+            // the last byte(s) are written by `finish()`
+            ctx.stats.bump("sink.limit.in_finish");
+            format!("r{}", ctx.rng.range(1, 10))
+        }
+        7 => {
+            ctx.stats.bump("sink.limit.near_end");
+            format!("r{}", ctx.rng.range(11, 80))
+        }
+        8 => {
+            ctx.stats.bump("sink.limit.one_short");
+            "r1".to_string()
+        }
+        _ => {
+            ctx.stats.bump("sink.limit.ample");
+            format!("a{}", 1_000_000 + ctx.rng.below(5))
+        }
+    };
+    emit_op(ctx, &format!("sink {} {}", indent, lim), g);
+}
+
+fn emit_src(ctx: &mut GenCtx, indent: usize, g: &[Tr]) {
+    let k = ctx.rng.range(0, g.len() + 1);
+    ctx.stats.bump(if k == 0 { "src.fails_first" } else if k < g.len() { "src.fails_midway" } else if k == g.len() { "src.fails_never_exact" } else { "src.fails_never" });
+    emit_op(ctx, &format!("src {} {}", indent, k), g);
 }
 
 pub fn generate(ctx: &mut GenCtx) {
@@ -831,9 +1301,64 @@ pub fn generate(ctx: &mut GenCtx) {
         emit_ser(ctx, n, &[[b.clone(), p.clone(), lit.clone()], [a.clone(), p.clone(), lit.clone()], [b.clone(), p.clone(), a.clone()]]);
         ctx.stats.bump("structure_case");
     }
+    // every near-miss datatype (and xsd:string itself), with and without indentation
+    let xs = T::Iri("x:s".into());
+    for dt in near_miss_datatypes().iter().chain(dts.iter()) {
+        for (indent, text) in [(0usize, "a b"), (3, " <&> ")] {
+            emit_ser(ctx, indent, &[[xs.clone(), p.clone(), T::Lit(text.into(), dt.clone())]]);
+            ctx.stats.bump("datatype_case");
+        }
+    }
+    // every odd IRI in subject, object and datatype position
+    for i in ODD_IRIS.iter().chain(NEAR_MISS_VOCAB) {
+        let t = T::Iri(i.to_string());
+        emit_ser(ctx, 2, &[[t.clone(), p.clone(), t.clone()], [t.clone(), p.clone(), T::Lit("v".into(), i.to_string())]]);
+        ctx.stats.bump("iri_case");
+    }
+    // quoted triples: one / both positions, depth 1..3, with a non-convertible leaf (skipped)
+    // or without (formatter error), before and after a representable triple
+    let q1 = T::Triple(Box::new([a.clone(), p.clone(), lit.clone()]));
+    let q2 = T::Triple(Box::new([q1.clone(), p.clone(), q1.clone()]));
+    let q3 = T::Triple(Box::new([b.clone(), p.clone(), q2.clone()]));
+    let bad1 = T::Triple(Box::new([lit.clone(), p.clone(), a.clone()]));
+    let bad2 = T::Triple(Box::new([q1.clone(), p.clone(), bad1.clone()]));
+    let plain_t: Tr = [a.clone(), p.clone(), lit.clone()];
+    for (s_, o_) in [(&q1, &a), (&a, &q1), (&q1, &q1), (&q2, &a), (&a, &q2), (&q2, &q2), (&q3, &q1), (&q1, &q3), (&bad1, &a), (&a, &bad1), (&q1, &bad1), (&bad2, &q1), (&q2, &bad2), (&bad2, &bad2)] {
+        let t: Tr = [(*s_).clone(), p.clone(), (*o_).clone()];
+        emit_ser(ctx, 0, &[t.clone()]);
+        emit_ser(ctx, 2, &[plain_t.clone(), t.clone(), plain_t.clone()]);
+        emit_op(ctx, "src 0 1", &[plain_t.clone(), t.clone()]);
+        emit_op(ctx, "src 0 2", &[plain_t.clone(), t.clone(), plain_t.clone()]);
+        emit_op(ctx, "sink 0 a1000000", &[t.clone(), plain_t.clone()]);
+        ctx.stats.bump("quoted_case");
+    }
+    // a failing writer at every position of a small document, and a failing source at every position
+    let small: Vec<Tr> = vec![plain_t.clone(), [b.clone(), p.clone(), T::Lang("é\r\n".into(), "en".into())], [b.clone(), T::Iri("http://ex.org/".into()), a.clone()]];
+    for indent in [0usize, 2] {
+        for k in 0..=330usize {
+            emit_op(ctx, &format!("sink {} a{}", indent, k), &small);
+            ctx.stats.bump("sink.every_position");
+        }
+        for k in 0..=30usize {
+            emit_op(ctx, &format!("sink {} r{}", indent, k), &small);
+        }
+        for k in 0..=4usize {
+            emit_op(ctx, &format!("src {} {}", indent, k), &small);
+            emit_op(ctx, &format!("src {} {}", indent, k), &[]);
+            ctx.stats.bump("src.every_position");
+        }
+        emit_op(ctx, &format!("sink {} r0", indent), &[]);
+        emit_op(ctx, &format!("sink {} r1", indent), &[]);
+        emit_op(ctx, &format!("sink {} a0", indent), &[]);
+    }
     let n = if ctx.thorough { 30000 } else { 2500 };
     for _ in 0..n {
-        let k = ctx.rng.range(1, 5);
+        let k = if ctx.rng.chance(1, 60) {
+            ctx.stats.bump("graph.big");
+            ctx.rng.range(20, 60)
+        } else {
+            ctx.rng.range(1, 5)
+        };
         let mut g: Vec<Tr> = vec![];
         let mut all_rep = true;
         for i in 0..k {
@@ -864,6 +1389,12 @@ pub fn generate(ctx: &mut GenCtx) {
         let indent = if ctx.rng.chance(1, 40) { ctx.rng.range(9, 70) } else { ctx.rng.range(0, 8) };
         ctx.stats.bump(&format!("indent.{}", if indent > 8 { "big".to_string() } else { indent.to_string() }));
         emit_ser(ctx, indent, &g);
+        if ctx.rng.chance(1, 5) {
+            emit_sink(ctx, indent, &g);
+        }
+        if ctx.rng.chance(1, 8) {
+            emit_src(ctx, indent, &g);
+        }
     }
 }
 
